@@ -11,6 +11,7 @@ import (
 	"sort"
 	"strings"
 	"sync"
+	"sync/atomic"
 	"time"
 
 	"github.com/containerd/nri/pkg/api"
@@ -53,20 +54,21 @@ type PlugObs struct {
 }
 
 type plugEnd struct {
-	in     PlugIn
-	regTo  time.Duration
-	reqTo  time.Duration
-	mu     sync.Mutex
-	obs    PlugObs
-	conn   stdnet.Conn
-	mux    multiplex.Mux
-	rpcs   *ttrpc.Server
-	rpcc   *ttrpc.Client
-	st     stub.Stub
-	closed chan struct{} // connection went down
-	synced chan struct{} // Synchronize answered successfully
-	quit   chan struct{} // harness teardown
-	term   chan struct{} // the handshake reached a terminal state on this side
+	in      PlugIn
+	regTo   time.Duration
+	reqTo   time.Duration
+	mu      sync.Mutex
+	obs     PlugObs
+	conn    stdnet.Conn
+	mux     multiplex.Mux
+	rpcs    *ttrpc.Server
+	rpcc    *ttrpc.Client
+	st      stub.Stub
+	stalled atomic.Bool   // went silent in some handler ("never"): answers nothing from then on
+	closed  chan struct{} // connection went down
+	synced  chan struct{} // Synchronize answered successfully
+	quit    chan struct{} // harness teardown
+	term    chan struct{} // the handshake reached a terminal state on this side
 	// released: the runtime is through with this connection (synchronised, rejected, closed) and
 	// its accept loop moves on; the next plugin's scripted registration delay counts from here,
 	// which is when the runtime starts waiting for it
@@ -129,6 +131,7 @@ func (p *plugEnd) answer(mode string, to time.Duration) error {
 		p.wait(to*5/2 + 50*time.Millisecond)
 		return nil
 	case "never":
+		p.stalled.Store(true)
 		p.stall()
 		return errors.New("stalled")
 	case "error":
@@ -170,6 +173,11 @@ func (p *plugEnd) Shutdown(context.Context, *api.Empty) (*api.Empty, error) {
 	p.mu.Lock()
 	p.obs.Others++
 	p.mu.Unlock()
+	if p.stalled.Load() {
+		// a plugin that has gone silent answers nothing any more, whatever it is asked
+		p.stall()
+		return nil, errors.New("stalled")
+	}
 	return &api.Empty{}, nil
 }
 func (p *plugEnd) CreateContainer(context.Context, *api.CreateContainerRequest) (*api.CreateContainerResponse, error) {
